@@ -585,7 +585,10 @@ class spawn(SpawnBase):
     def _log_control(self, s):
         """Write control characters to the appropriate log files"""
         if self.encoding is not None:
-            s = s.decode(self.encoding, 'replace')
+            # Control characters are written to the child as single raw bytes,
+            # not through the encoder: log the same code point, whatever the
+            # encoding (one byte decoded as e.g. UTF-16 gives U+FFFD).
+            s = s.decode('latin-1')
         self._log(s, 'send')
 
     def sendcontrol(self, char):
